@@ -107,6 +107,10 @@ theorem forRange_shift {α σ ρ : Type} (body : Nat → α → σ → Option (S
       | ret r => rfl
       | cont st' => exact ih (i + 1) st'
 
+/-- `s[lo:hi]` on a slice or string; `none` = slice bounds out of range -/
+def goSlice {α : Type} (s : List α) (lo hi : Nat) : Option (List α) :=
+  if lo ≤ hi ∧ hi ≤ s.length then some ((s.take hi).drop lo) else none
+
 /-- Go `a < b` on strings -/
 abbrev strLt (a b : Bytes) : Bool := bytesLt a b
 
